@@ -141,17 +141,34 @@ func runReplay(comp string, r Replayer, opt *Options) error {
 	// memory watchdog: a library call that loops forever while allocating would take the whole process
 	// down (out of memory is not recoverable).  When the heap explodes, the behaviours that have been
 	// running for a while are reported as "did not return" and the result is written at once.
+	var base runtime.MemStats
+	runtime.GC()
+	runtime.ReadMemStats(&base) // what the harness itself holds (the loaded behaviours) is not the library's doing
 	go func() {
 		var ms runtime.MemStats
 		for {
 			time.Sleep(50 * time.Millisecond)
 			runtime.ReadMemStats(&ms)
-			if ms.HeapAlloc < memLimit {
+			if ms.HeapAlloc < base.HeapAlloc+memLimit {
 				continue
 			}
 			mu.Lock()
+			culprits := 0
+			for _, t0 := range running {
+				if time.Since(t0) > 2*time.Second {
+					culprits++
+				}
+			}
+			if culprits == 0 {
+				// the heap is large but no library call has been running for long: not a runaway call.
+				// Give the collector a chance and carry on (the harness's own memory is its own problem).
+				mu.Unlock()
+				runtime.GC()
+				time.Sleep(500 * time.Millisecond)
+				continue
+			}
 			for idx, t0 := range running {
-				if time.Since(t0) > 300*time.Millisecond {
+				if time.Since(t0) > 2*time.Second {
 					res.NFail++
 					res.Failures = append(res.Failures, &Failure{Index: idx, Step: -1, Kind: "verdict", Behaviour: bs[idx],
 						Sig: "a library call did not return (endless loop, unbounded memory)", Got: fmt.Sprintf("heap %d MB", ms.HeapAlloc>>20)})
